@@ -116,6 +116,7 @@ type c19pkg struct {
 	pkg       *types.Package
 	info      *types.Info
 	claimed   map[ast.Node]string // top-level decl (or spec) -> what recognised it
+	evaluated bool                // some naming function of this package was translated by evaluation (c19_eval.go)
 }
 
 type fakeImporter struct{}
